@@ -287,4 +287,25 @@ example :
     panicOf (opNewEntity noRun .typed [1] [] [⟨1, uu⟩] rejAdd.state) = none := by
   refine ⟨?_, ?_, ?_, ?_, ?_, ?_, ?_, ?_, ?_, ?_⟩ <;> decide +kernel
 
+/-- a filter that selects nothing: component 0 required and excluded -/
+def foNone : FilterObj :=
+  { filter := { mask := Mask.ofList [0], without := Mask.ofList [0], hasWithout := true } }
+
+/-- **an exchange batch whose filter selects nothing still flags its relation targets**, as the Go
+    code does (`exchangeBatch` calls `registerTargets(relations)` once, unconditionally, after the
+    planning loop): `Map1[C1].AddBatch(<nothing>, Rel(1, uu))` in `h6` selects no table, moves no
+    entity, creates nothing — and sets the `isTarget` flag of `uu` (ID 3), which was not set; the
+    world is unlocked afterwards.  (So a later `RemoveEntity(uu)` runs the cleanup of the relation
+    archetypes, in the model as in Go.) -/
+example :
+    (match getBatchTables foNone [] h6 with | .ok ts _ => some ts | .panic _ _ => none) = some [] ∧
+    panicOf (opExchangeBatch noRun .typed foNone [] [1] [] [⟨1, uu⟩] none h6) = none ∧
+    h6.isTarget = [false, false, true, false, false, false] ∧
+    (opExchangeBatch noRun .typed foNone [] [1] [] [⟨1, uu⟩] none h6).state.isTarget =
+      [false, false, true, true, false, false] ∧
+    (opExchangeBatch noRun .typed foNone [] [1] [] [⟨1, uu⟩] none h6).state.tables = h6.tables ∧
+    (opExchangeBatch noRun .typed foNone [] [1] [] [⟨1, uu⟩] none h6).state.entities = h6.entities ∧
+    (opExchangeBatch noRun .typed foNone [] [1] [] [⟨1, uu⟩] none h6).state.isLocked = false := by
+  refine ⟨?_, ?_, ?_, ?_, ?_, ?_, ?_⟩ <;> decide +kernel
+
 end Ark.Props.C07Batch
